@@ -12,7 +12,8 @@ def main():
     rng = random.Random("%s/%d" % (fam, seed))
     sc = FAMILIES[fam](rng)
     print(json.dumps(sc))
-    t = Run(copy.deepcopy(sc), seed=seed, max_events=me, tid=seed, adversarial=adv).execute()
+    script = sc.pop("script", None)
+    t = Run(copy.deepcopy(sc), seed=seed, max_events=me, tid=seed, adversarial=adv, script=script).execute()
     print("outcome", t["outcome"], t["crash"], "events", len(t["events"]))
     work = os.path.join(tlc.VERIF, ".work", "dbg")
     vs, st, wall = tlc.run_trace_validation(work, [t], name="d")
